@@ -367,6 +367,22 @@ static void run_c03s(long cases) {
         mg::Msg m = mg::gen_message(r, go);
         std::string bytes = r.chance(1, 8) ? m.bytes : hostile_mutate(r, m.bytes);
         if (r.chance(1, 10)) { bytes.clear(); int len = r.range(1, 200); for (int k = 0; k < len; k++) bytes += (char)r.below(256); }
+        else if (r.chance(1, 3)) {
+            // a well-formed request with ONE header value that its typed converter cannot digest: the converters raise a zoo of
+            // exception types (invalid_argument, out_of_range, runtime_error, HttpError ...), all of which must end in a response
+            static const char* BREAKERS[][2] = {
+                {"Host", "localhost:99999"}, {"Host", "localhost:abc"}, {"Host", "localhost:"}, {"Host", "[::1]:70000"}, {"Host", ":"}, {"Host", "[::1"}, {"Host", "1.2.3.4:-1"},
+                {"Content-Length", "99999999999999999999999"}, {"Content-Length", "-1"}, {"Content-Length", "1e9"}, {"Content-Length", ""}, {"Content-Length", "18446744073709551616"},
+                {"Set-Cookie", "id=1; Max-Age=soon"}, {"Set-Cookie", "id=1; Max-Age=2147483648"}, {"Set-Cookie", "id=1; Expires=never"}, {"Cookie", "novalue"}, {"Cookie", "=; ="},
+                {"Cache-Control", "max-age=abc"}, {"Cache-Control", "max-age=99999999999999999999"}, {"Cache-Control", "max-age="}, {"Accept", "text/;;q="}, {"Accept", "text/html;q=9e999"}, {"Accept", "text/html;q=-1"},
+                {"Content-Type", "nonsense"}, {"Content-Type", "text/plain; q=abc"}, {"Date", "Sun, 99 Foo 99999 99:99:99 GMT"}, {"Date", ""}, {"Authorization", ""}, {"Expect", ""}, {"Connection", "\x01"},
+                {"Transfer-Encoding", "chunked, chunked, gzip"}, {"Content-Encoding", "\xff"}, {"Server", ""}, {"User-Agent", ""}, {"Location", ""}, {"Access-Control-Allow-Origin", ""}, {"Allow", "GET, , BREW"}};
+            const char* const* bk = BREAKERS[r.below(sizeof BREAKERS / sizeof BREAKERS[0])];
+            std::string val = bk[1]; if (r.chance(1, 3)) put_magic_number(r, val);
+            bytes = std::string(r.chance(1, 2) ? "GET" : "POST") + " /b HTTP/1.1\r\nHost: h\r\n" + bk[0] + ": " + val + "\r\n" + (r.chance(1, 2) ? "Content-Length: 0\r\n" : "") + "\r\n";
+            if (std::string(bk[0]) == "Host") bytes = std::string("GET /b HTTP/1.1\r\nHost: ") + val + "\r\n\r\n";
+            count("hostile_header_values");
+        }
         std::string wt = Json().num("i", idx).str("phase", "c03-server").str("origin", m.shape).str("hex", hex(bytes.substr(0, 4000))).done();
         set_case(idx, wt);
         lv::Conn x; if (!x.open_to(port)) { violation("c03:server:cannot-connect", "the server no longer accepts connections", wt); break; }
